@@ -12,26 +12,35 @@
 (*   r.plan    the transitions passed ([path, old, new])                    *)
 (*   r.pre     walker's detailed view after the edits, before Transition    *)
 (*   r.results r.problems r.missing   what Transition returned              *)
-(*   r.post    walker's detailed view afterwards;  r.scan1 second scan      *)
+(*   r.post    walker's view afterwards;  r.scan1 second scan               *)
 (*   r.nops r.ops r.fired r.hit r.hung   what the hook observed             *)
 (*                                                                          *)
-(* The step relation is permissive (any outcome is consumed); the operators *)
-(* C08_* / C09_* of FSProps - the same ones TLC checks on FSTransition -     *)
-(* judge the observations.                                                  *)
+(* Verdicts: the operators C08_* / C09_* of FSProps - the same ones TLC     *)
+(* checks on FSTransition - evaluated on the observations; the step         *)
+(* relation admits any outcome.                                             *)
+(*                                                                          *)
+(* Conformance (statistics only, never a verdict): for every run without an *)
+(* injected event the machine of FSTransition.tla is started from the       *)
+(* recorded case (same disk, cache, plan, edits, mode) and stepped with its *)
+(* own actions (Steps) to "done"; its results, problem paths, missing flag  *)
+(* and final disk are compared with what the real code did (stat_drift_...). *)
 (***************************************************************************)
-EXTENDS FSShapes, TraceKit
+EXTENDS FSTransition, TraceKit
 
 CONSTANT Want
 
 VARIABLES l, fails, seen, cnt, done
-tvars == <<l, fails, seen, cnt, done>>
+tvars == <<l, fails, seen, cnt, done, s>>
+Idle == [pc |-> "idle"]
 
-\* the case description in the model's vocabulary (file content name = digest name)
-RECURSIVE ToDisk(_)
-ToDisk(n) == CASE n.k = "file" -> DF(n.s, n.x, 0)
-               [] n.k = "fifo" -> U
-               [] n.k = "dir" -> D([m \in DOMAIN n.c |-> ToDisk(n.c[m])])
-               [] OTHER -> n
+\* the case description in the model's vocabulary
+RECURSIVE ToDiskBy(_, _)
+ToDiskBy(n, real) == CASE n.k = "file" -> DF(IF real THEN n.d ELSE n.s, n.x, 0)
+                       [] n.k = "fifo" -> U
+                       [] n.k = "dir" -> D([m \in DOMAIN n.c |-> ToDiskBy(n.c[m], real)])
+                       [] OTHER -> n
+ToDisk(n) == ToDiskBy(n, FALSE)        \* file content name as digest name: the shapes' vocabulary
+ToDiskReal(n) == ToDiskBy(n, TRUE)     \* real SHA-1 digests: comparable with the recorded plan and results
 ToTarget(n) == Obs(ToDisk(n))
 
 EditPaths(r) == {e.path : e \in Rng(r.in.edits)}
@@ -59,8 +68,39 @@ RecFails(i, r) ==
     \o Chk(Want, i, "C09_ResultsMatchWalker", C09_ResultsExact(r.plan, r.results, Plain(r.post)))
     \o Chk(Want, i, "C08_ModifiedSurvives", C08_ModifiedSurvives(EditPaths(r), r.pre, r.post))
     \o Chk(Want, i, "C08_ModifiedReported", C08_ModifiedReported(EditPaths(r), r.plan, ProblemPaths(r), r.pre))
-    \o Chk(Want, i, "C08_OutsidePlanUntouched", C08_OutsidePlanUntouched(r.plan, r.pre, r.post))
+    \o Chk(Want, i, "C08_OutsidePlanUntouched", r.pre.k # "notrecorded" => C08_OutsidePlanUntouched(r.plan, r.pre, r.post))
 
+\* ---------------------------------------------------------- conformance
+\* an external edit of the driver in the model's terms
+EditedNode(op, n) ==
+  CASE op \in {"content", "mtime", "size", "id"} -> DF("edited", n.x, 1)
+    [] op = "mode" -> DF(n.d, n.x, 1)
+    [] op = "stale" -> DF("stale", n.x, 0)
+    [] op \in {"retarget", "tolink", "createlink"} -> L("retargeted")
+    [] op \in {"newchild", "tofile", "createfile"} -> DF("edited", FALSE, 1)
+    [] op \in {"todir", "createdir"} -> D(<<>>)
+    [] OTHER -> Nil    \* delete
+ApplyEdit(t, e) ==
+  [t EXCEPT !.disk = SetAt(t.disk, e.path, EditedNode(e.op, At(t.disk, e.path))),
+            !.edited = @ \cup {e.path},
+            !.cache = IF e.op = "stale" THEN [@ EXCEPT ![e.path] = [v |-> 0, d |-> "stale"]] ELSE @]
+RECURSIVE ApplyEdits(_, _)
+ApplyEdits(t, es) == IF es = <<>> THEN t ELSE ApplyEdits(ApplyEdit(t, Head(es)), Tail(es))
+
+FromRecord(r) ==
+  ApplyEdits(Start(ToDiskReal(r.in.tree0), r.plan, r.in.mode.exdev, r.in.mode.owner,
+                   [any |-> FALSE, set |-> Rng(r.in.mode.missing)]),
+             r.in.edits)
+
+RECURSIVE NoDigest(_)
+NoDigest(e) == CASE e.k = "file" -> [k |-> "file", x |-> e.x]
+                 [] e.k = "dir" -> [k |-> "dir", c |-> [m \in DOMAIN e.c |-> NoDigest(e.c[m])]]
+                 [] OTHER -> [k |-> e.k]
+
+Replayable(r) == "Conforms" \in Want /\ WellFormed(r) /\ r.in.fault.kind = "none" /\ ~r.hung
+
+Zero == [fired |-> 0, partial |-> 0, missing |-> 0, problems |-> 0, temps |-> 0,
+         runs |-> 0, dres |-> 0, dprob |-> 0, dmiss |-> 0, ddisk |-> 0, stuck |-> 0]
 \* statistics: how the run ended
 Bump(c, r) ==
   [c EXCEPT !.fired = @ + (IF r.fired THEN 1 ELSE 0),
@@ -68,22 +108,43 @@ Bump(c, r) ==
             !.missing = @ + (IF r.missing THEN 1 ELSE 0),
             !.problems = @ + (IF Len(r.problems) > 0 THEN 1 ELSE 0),
             !.temps = @ + (IF \E p \in Nodes(r.post) : At(r.post, p).k = "temp" THEN 1 ELSE 0)]
+Compare(c, r, m) ==
+  [c EXCEPT !.runs = @ + 1,
+            !.dres = @ + (IF m.results = r.results THEN 0 ELSE 1),
+            !.dprob = @ + (IF m.problems = ProblemPaths(r) THEN 0 ELSE 1),
+            !.dmiss = @ + (IF m.missing = r.missing THEN 0 ELSE 1),
+            !.ddisk = @ + (IF NoDigest(Obs(m.disk)) = NoDigest(Plain(r.post)) THEN 0 ELSE 1)]
 
-TInit == /\ l = 1 /\ fails = <<>> /\ seen = {} /\ done = FALSE
-         /\ cnt = [fired |-> 0, partial |-> 0, missing |-> 0, problems |-> 0, temps |-> 0]
-Step == /\ l <= NRec
-        /\ LET r == Trace[l] IN
-           /\ fails' = Cap(fails \o RecFails(l, r))
-           /\ seen' = IF WellFormed(r) /\ r.in.shape \in ShapeNames
-                      THEN seen \cup {<<r.in.shape, ToDisk(r.in.tree0), ToTarget(r.in.target)>>} ELSE seen
-           /\ cnt' = IF WellFormed(r) THEN Bump(cnt, r) ELSE cnt
-        /\ l' = l + 1 /\ UNCHANGED done
-Finish == /\ l = NRec + 1 /\ ~done
+Consume(r, c2) ==
+  /\ fails' = Cap(fails \o RecFails(l, r))
+  /\ seen' = IF WellFormed(r) /\ r.in.shape \in ShapeNames
+             THEN seen \cup {<<r.in.shape, ToDisk(r.in.tree0), ToTarget(r.in.target)>>} ELSE seen
+  /\ cnt' = IF WellFormed(r) THEN Bump(c2, r) ELSE c2
+  /\ l' = l + 1 /\ UNCHANGED done
+
+TInit == /\ l = 1 /\ fails = <<>> /\ seen = {} /\ done = FALSE /\ cnt = Zero /\ s = Idle
+\* a record that is judged only
+StepPlain == /\ l <= NRec /\ s = Idle /\ ~Replayable(Trace[l])
+             /\ Consume(Trace[l], cnt) /\ UNCHANGED s
+\* a record whose case the machine re-runs: load it, ...
+Load == /\ l <= NRec /\ s = Idle /\ Replayable(Trace[l])
+        /\ s' = FromRecord(Trace[l]) /\ UNCHANGED <<l, fails, seen, cnt, done>>
+\* ... step the specification's own actions, ...
+Run == /\ s # Idle /\ s.pc # "done" /\ Steps /\ UNCHANGED <<l, fails, seen, cnt, done>>
+\* ... and compare when Transition returns
+Judge == /\ s # Idle /\ s.pc = "done"
+         /\ Consume(Trace[l], Compare(cnt, Trace[l], s)) /\ s' = Idle
+\* the machine cannot continue on this case: counted, never a verdict
+GiveUp == /\ s # Idle /\ s.pc # "done" /\ ~ENABLED Steps
+          /\ Consume(Trace[l], [cnt EXCEPT !.stuck = @ + 1]) /\ s' = Idle
+Finish == /\ l = NRec + 1 /\ ~done /\ s = Idle
           /\ WriteResult(l - 1, fails,
                          [stat_shape_pairs_seen |-> Cardinality(seen),
                           stat_fired |-> cnt.fired, stat_partial_results |-> cnt.partial, stat_missing_flag |-> cnt.missing,
-                          stat_with_problems |-> cnt.problems, stat_temp_left |-> cnt.temps])
-          /\ done' = TRUE /\ UNCHANGED <<l, fails, seen, cnt>>
-TNext == Step \/ Finish
+                          stat_with_problems |-> cnt.problems, stat_temp_left |-> cnt.temps,
+                          stat_model_runs |-> cnt.runs, stat_drift_results |-> cnt.dres, stat_drift_problems |-> cnt.dprob,
+                          stat_drift_missing |-> cnt.dmiss, stat_drift_disk |-> cnt.ddisk, stat_model_stuck |-> cnt.stuck])
+          /\ done' = TRUE /\ UNCHANGED <<l, fails, seen, cnt, s>>
+TNext == StepPlain \/ Load \/ Run \/ Judge \/ GiveUp \/ Finish
 TSpec == TInit /\ [][TNext]_tvars
 ====
